@@ -162,7 +162,10 @@ func c10Run(c *wk.Ctx, idx int64, seed int64, shared bool, scratch string) (tran
 			}
 			return dhcpFrame(mac, src, netip.MustParseAddr("255.255.255.255"), m, 68, 67, bcastMAC)
 		}
-		switch k := r.Intn(17); {
+		switch k := r.Intn(18); {
+		case k == 17:
+			// a runt frame: Ethernet header only
+			pkt, label = refdec.Ether(toMAC(nic.HostMAC), mac, []uint16{0x0800, 0x86dd, 0x0806}[r.Intn(3)], 0, nil), "runt"
 		case k == 16:
 			// another DHCP server's OFFER to one of the clients, seen on port 68: in secondary mode the handler answers with a
 			// forged DECLINE to that server, sent from a goroutine of its own after ProcessPacket has returned
@@ -252,7 +255,13 @@ func c10Run(c *wk.Ctx, idx int64, seed int64, shared bool, scratch string) (tran
 			})
 			if shared {
 				// the caller reuses its receive buffer as soon as ProcessPacket and Notify have returned
-				switch scribble.Intn(3) {
+				switch scribble.Intn(4) {
+				case 3:
+					// overwritten by the next frame on the wire, which the caller filters out and never hands to Parse
+					for i := range sharedBuf {
+						sharedBuf[i] = 0xa5
+					}
+					copy(sharedBuf, ghostFrame)
 				case 0:
 					for i := range sharedBuf {
 						sharedBuf[i] = 0xa5
@@ -265,7 +274,7 @@ func c10Run(c *wk.Ctx, idx int64, seed int64, shared bool, scratch string) (tran
 					scribble.Read(sharedBuf)
 				}
 			} else {
-				scribble.Intn(3)
+				scribble.Intn(4)
 			}
 			if pi != nil {
 				return transcript, retained
